@@ -32,4 +32,30 @@ CHECKS = {
     "C03": strat("TestC03", 103,
                  "same case stream as C01; oracle = the relational balancing rule of each strategy on every produced plan. Non-trivial = >=2 nodes and at least one (i,j) node pair is constrained by the rule; distinct = hash of the normalised case",
                  "Each produced plan is checked against the pairwise balancing relation the property states for its strategy (never against a re-implementation of the algorithm); >=1000 rule-bound plans per strategy are required, otherwise the run is inconclusive."),
+    "C17": dict(test="TestC17", level="exploration", seed=117,
+                rule="complete matrix: Txn cond{ok,fail} x then{ok,fail,absent} x rollback{ok,fail,absent} x caller cancellation {none, before, during cond, during then, during rollback} (90) + PCR prepare x commit x rollback x cancellation (40); cancellation is triggered from inside the step, so 'during' is exact. Every combination is non-trivial; distinct = the combination. The matrix is then repeated from 16 concurrent goroutines.",
+                level_text="The whole finite outcome x cancellation matrix of the transaction helper is enumerated (exhaustive: true) with instrumented closures; the oracle checks step execution counts, the failureByCond flag, the returned error and liveness of the rollback context after caller cancellation.",
+                level_note="Trusted: instrumented closures and oracle in the harness. ttl is fixed at 1 minute (the helper's own rollback timeout is not part of the property); concurrency adds no new cases, it only shows the helper shares no state across invocations.",
+                technique="exhaustive runtime monitor: instrumented closures over the full outcome x cancellation matrix of utils.Txn/PCR",
+                quick=dict(batches=1, wall=300), thorough=dict(batches=1, wall=900),
+                assumptions=["step outcomes are scripted independently of cancellation", "ttl = 1 minute, never reached"]),
+    "C04": dict(test="TestC04", level="exploration", seed=104,
+                rule="node states from the section-4.5 generator (1..8 cores, 16 thorough; share base 100/10/1000; capacities base, 2*base and non-multiples; per-core usage with fragment bias; optional 2-node NUMA with NUMA memory; reachable states only: sum NUMA usage <= memory usage; max-share -1,1,2,3,n) x requests (bound and not, CPU on the share-base grid plus sub-piece values, memory 0/small/near free/above free). Each case goes (a) through schedule.GetCPUPlans directly - all returned plans judged jointly - and (b) through the real plugin on embedded etcd: GetNodesDeployCapacity, CalculateDeploy(k in {1,cap-1,cap}), SetNodeResourceUsage commit, read back. Non-trivial = bound request and (>=2 instances or NUMA node); distinct = hash(node state, request, route)",
+                level_text="Every allocation answer is judged jointly against the node's free per-core pieces, NUMA core membership, NUMA free memory and total free memory by an independent oracle, the commit must be accepted and the read-back usage must stay within capacity (including plain memory, which the plugin's own Validate does not check).",
+                level_note="Trusted: harness oracle and generators; embedded etcd. Node states are installed with SetNodeResourceInfo, i.e. only states the plugin accepts as valid are explored.",
+                technique="reference-model runtime monitor over the real cpumem plugin (embedded etcd) and schedule.GetCPUPlans",
+                quick=dict(batches=4, wall=900), thorough=dict(batches=12, wall=3000),
+                assumptions=["only reachable node states: usage <= capacity per core, sum of NUMA memory usage <= memory usage, sum NUMA capacity <= memory capacity"]),
+    "C05": dict(test="TestC05", level="exploration", seed=105,
+                rule="exhaustive grid block: every request k/base, k=1..3*base, at share base 100 and 10 (base 1000: stride 7 quick / all thorough) planned on an empty 5-core node through schedule.GetCPUPlans and CalculateDeploy; then the C04 random stream restricted to bound requests. Non-trivial = bound request for which at least one instance was planned; distinct = hash(node state, request, route)",
+                level_text="Each planned bound instance is checked for piece total = round(request*base), whole cores at full share plus at most one fractional core, and agreement between the recorded cpu_request and the pieces; the share-base grid is enumerated completely for base 100 and 10.",
+                level_note="Trusted: harness oracle. Rounding rule is 'nearest piece' (floor(x+0.5)) as the property states.",
+                technique="reference-model runtime monitor, exhaustive over the share-base request grid + PRNG node states",
+                quick=dict(batches=4, wall=900), thorough=dict(batches=12, wall=3000), assumptions=[]),
+    "C06": dict(test="TestC06", level="exploration", seed=106, dead_child="violation", dead_key_prefix="planner",
+                rule="hostile corner of the section-4.5 generator: sub-piece requests, max-share below the number of fractional cores already present, capacities that are not multiples of the share base, every share base; schedule.GetCPUPlans with and without an affinity origin map, GetNodesDeployCapacity, CalculateDeploy and CalculateRealloc (hostile deltas incl. ones that leave < 1 piece) through the real plugin. Every call runs under panic capture and a 20 s / 3 GiB watchdog, the case is journalled before the call. Non-trivial = bound request; distinct = hash(node state, request, route)",
+                level_text="Each planner/plugin call is executed under panic capture and a watchdog (wall + heap growth); a call that panics, does not return or allocates without bound is a violation with the journalled case as witness.",
+                level_note="Trusted: watchdog thresholds (20 s or 3 GiB for a call that normally takes microseconds on <=16 cores). A child that dies with a journalled case is reported as a violation of that case.",
+                technique="runtime monitor with panic capture, journalling and wall/heap watchdog over hostile planner inputs",
+                quick=dict(batches=4, wall=900), thorough=dict(batches=12, wall=3000), assumptions=[]),
 }
